@@ -26,6 +26,6 @@ if not (unchanged_ok and changed_fail and suite_ok):
     print('NOT CONFIRMED - not stored'); sys.exit(1)
 os.makedirs(dst, exist_ok=True)
 for f in ('patch.diff', 'demo_test.go'):
-    shutil.copy(os.path.join(src, f), os.path.join(dst, f))
+    if os.path.abspath(src) != os.path.abspath(dst): shutil.copy(os.path.join(src, f), os.path.join(dst, f))
 json.dump(meta, open(os.path.join(dst, 'meta.json'), 'w'), indent=1)
 print('stored', dst, 'violations:', len(viol))
